@@ -16,6 +16,8 @@ MNext ==
   \/ \E r \in {"ok", "err"}, j \in 1..Len(c.phs) : Step(PhaseEnd(c, j, r))
   \/ Step(Progress(c))
   \/ \E i \in 1..N(c) : Step(EnvClose(c, i))
+  \/ \E i \in 1..N(c) : c.st[i] # "closed" /\ HasIO(c, i) /\ i \notin c.wf /\ Step(EnvWriteFail(c, i))
+  \/ \E i \in c.wf : Step(EnvReset(c, i))
   \/ \E i \in 1..N(c) : Step(DiscEnd(c, i))
 MSpec == MInit /\ [][MNext]_mvars
 \* vacuity guards: these must be reachable (checked as violated invariants in the self-test)
